@@ -81,6 +81,19 @@ def fluid_classes(tree):
                 if "d.update({k: self.prop_getter.__dict__[k] for k in self.prop_getter_entries.keys()})" not in src or \
                         "interp1d(**d2)" not in src or "if k not in cls.prop_getter_entries.keys()" not in src:
                     raise Unsupported("FluidPropertyInterExtra.to_dict / from_dict not recognised")
+    for node in tree.body:
+        if isinstance(node, ast.ClassDef) and node.name == "FluidPropertyPolynominal":
+            meths = [f.name for f in node.body if isinstance(f, ast.FunctionDef)]
+            if ("to_dict" in meths) != ("from_dict" in meths):
+                raise Unsupported("FluidPropertyPolynominal: to_dict without from_dict (or vice versa)")
+            if "to_dict" in meths:
+                # accepted shape: the poly1d objects are excluded, the coefficients are one more stored field that
+                # from_dict pops to rebuild poly1d / polyint (field-level codec = the generic one of the model)
+                src = ast.unparse(node)
+                for need in ('"prop_getter"', '"prop_int_getter"', "d['coefficients'] =", "d.pop('coefficients')",
+                             "np.poly1d(coefficients)", "np.polyint(obj.prop_getter)", "obj.__dict__.update(d)"):
+                    if need.replace('"', "'") not in src.replace('"', "'"):
+                        raise Unsupported("FluidPropertyPolynominal.to_dict / from_dict not recognised (%s)" % need)
     if entries is None or excludes is None:
         raise Unsupported("prop_getter_entries / json_excludes not found")
     return out, entries, excludes
